@@ -1,9 +1,190 @@
-(* C02/Properties.v -- the theorems of property C02 (statements only; proofs in the *Proofs.v files). *)
+(* C02/Properties.v -- the theorems of property C02 (statements only; proofs in the *Proofs.v files).
+
+   Reading a selection of rows and/or columns returns exactly what indexing the fully-read table would.
+   Gen.v (process_slice, slice2rows, fix_range, get_slice_nrows) is regenerated from the Python source
+   on every run; Model.v is the hand model of the rest (see its header); Spec.v states the property. *)
+From Coq Require Import Sorted.
 From Coq.Strings Require Import Byte.
 From EsVerif.Common Require Import Base Bytes.
-From EsVerif.C02 Require Import Arange Gen Model Spec SpecProofs.
+From EsVerif.C02 Require Import Arange Gen Model Spec SpecProofs SliceProofs RowsProofs CursorProofs MainProofs TextProofs.
+From EsVerif.C04 Require TextModel.
 
 (* the boolean checker run on the implementation's output decides the property as stated in Spec.v *)
 Theorem C02_check_sound : forall n names full q out,
   check n names full q out = true <-> holds n names full q out.
 Proof. exact check_sound. Qed.
+
+(* ------------------------------------------------------------------ slices follow Python semantics *)
+(* what the rows of a Python slice with a positive step are *)
+Theorem C02_py_range_spec : forall a b s x, 0 < s ->
+  In x (py_range a b s) <-> a <= x < b /\ (x - a) mod s = 0.
+Proof. exact py_range_spec. Qed.
+
+(* text files and column subsets (slice expanded to row numbers by _slice2rows/_fix_range) *)
+Theorem C02_slice_unpacked_python : forall n a b c,
+  0 <= n -> step_ok c -> slice2rows n a b c = Ok (py_slice_rows n a b c).
+Proof. exact slice2rows_python. Qed.
+
+(* binary files: _process_slice normalises, Records::process_slice accepts it, both row counts agree,
+   and the rows start, start+step, ... visited by read_binary_slice are the rows of the Python slice *)
+Theorem C02_slice_binary_python : forall n a b c,
+  0 <= n -> step_ok c ->
+  exists s0 s1 k,
+    process_slice n a b c = Ok (s0, s1, step_val c) /\
+    0 <= s0 <= s1 /\ s1 <= n /\
+    cpp_process_slice n s0 s1 (step_val c) = Ok k /\
+    get_slice_nrows s0 s1 (step_val c) = Ok k /\
+    0 <= k /\
+    slice_rows (s0, s1, step_val c) k = py_slice_rows n a b c.
+Proof. exact process_slice_python. Qed.
+
+Theorem C02_fix_range_total : forall n x b, exists v, fix_range n x b = Ok v.
+Proof. exact fix_range_total. Qed.
+
+Example slice_negative_stop : slice2rows 5 (Some 0) (Some (-1)) None = Ok [0; 1; 2; 3].
+Proof. reflexivity. Qed.
+Example slice_clipped_start : process_slice 5 (Some (-7)) (Some 3) None = Ok (0, 3, 1).
+Proof. reflexivity. Qed.
+Example slice_beyond_end : process_slice 5 (Some 7) (Some 9) None = Ok (5, 5, 1) /\ py_slice_rows 5 (Some 7) (Some 9) None = [].
+Proof. split; reflexivity. Qed.
+Example slice_step : py_slice_rows 5 (Some (-4)) None (Some 3) = [1; 4].
+Proof. reflexivity. Qed.
+
+(* ------------------------------------------------------------------ row lists and scalar rows *)
+(* a row list yields its distinct rows in ascending order *)
+Theorem C02_rows_list_spec : forall n l,
+  0 <= n -> Forall (fun x => 0 <= x < n) l ->
+  get_rows2read n (Some l) = Ok (Some (members_in_order n l)).
+Proof. exact rows_list_spec. Qed.
+
+Theorem C02_members_in_order_meaning : forall m l,
+  0 <= m -> StronglySorted Z.lt (members_in_order m l) /\
+            forall y, In y (members_in_order m l) <-> 0 <= y < m /\ In y l.
+Proof. intros m l Hm. split; [apply members_in_order_asc|intro y; apply members_in_order_In; assumption]. Qed.
+
+(* out-of-range row lists are rejected *)
+Theorem C02_rows_list_rejected : forall n l,
+  0 <= n -> (exists x, In x l /\ (x < - n \/ n <= x)) -> get_rows2read n (Some l) = Err EValue.
+Proof. exact rows_list_rejected. Qed.
+
+(* a scalar row in [-n, n) *)
+Theorem C02_rows_scalar_spec : forall n r,
+  - n <= r < n -> get_rows2read n (Some [r]) = Ok (Some [r mod n]).
+Proof. exact rows_scalar_spec. Qed.
+
+Example rows_unsorted_repeated : get_rows2read 5 (Some [3; 1; 3]) = Ok (Some [1; 3]).
+Proof. reflexivity. Qed.
+Example rows_single_out_of_range : get_rows2read 5 (Some [7]) = Err EValue.
+Proof. reflexivity. Qed.
+Example rows_last : get_rows2read 5 (Some [-1]) = Ok (Some [4]).
+Proof. reflexivity. Qed.
+
+(* ------------------------------------------------------------------ column lists *)
+(* a column list yields those columns in file order *)
+Theorem C02_columns_file_order : forall names cs,
+  NoDup names -> Forall (fun c => In c names) cs ->
+  get_colnums names cs =
+  Ok (map snd (filter (fun p => zmem cs (fst p)) (combine names (zseq 0 (length names))))).
+Proof. exact columns_file_order. Qed.
+
+Example columns_reordered : get_colnums [13; 11; 16] [16; 13] = Ok [0; 2].
+Proof. reflexivity. Qed.
+
+(* ------------------------------------------------------------------ the binary cursor loops *)
+(* read_binary_slice returns the rows start, start+step, ... exactly as they are in the file *)
+Theorem C02_cursor_binary_slice_correct : forall f t tail s0 s1 st k,
+  wf_bin f t tail -> t <> [] ->
+  0 <= s0 <= s1 -> s1 <= rf_nrows f -> 0 < st ->
+  cpp_process_slice (rf_nrows f) s0 s1 st = Ok k -> get_slice_nrows s0 s1 st = Ok k ->
+  read_binary_slice f (s0, s1, st) = Ok (map (row_at t) (slice_rows (s0, s1, st) k)).
+Proof. exact cursor_binary_slice_correct. Qed.
+
+(* read_binary_columns, for the sorted duplicate-free in-range rows and columns that _get_rows2read and
+   get_colnums hand over, returns the requested cells of the requested rows *)
+Theorem C02_cursor_binary_columns_correct : forall f t tail cols rows,
+  wf_bin f t tail -> t <> [] ->
+  StronglySorted Z.lt cols -> Forall (fun c => 0 <= c < Z.of_nat (length (rf_sizes f))) cols ->
+  match rows with
+  | None => True
+  | Some l => StronglySorted Z.lt l /\ Forall (fun r => 0 <= r < rf_nrows f) l
+  end ->
+  read_binary_columns f cols rows
+  = Ok (sel_table t (match rows with None => zseq 0 (length t) | Some l => l end) cols).
+Proof. exact cursor_binary_columns_correct. Qed.
+
+(* ------------------------------------------------------------------ access styles, composed *)
+(* Recfile[a:b:c] / SFile[a:b:c] on a well-formed binary file: the rows of the Python slice, all columns *)
+Theorem C02_binary_getitem_slice : forall P f t tail a b c,
+  wf_bin f t tail -> t <> [] -> step_ok c ->
+  recfile_getitem_rows P f (RSlice a b c)
+  = Ok (VTable (zseq 0 (length (rf_names f))) (map (row_at t) (py_slice_rows (rf_nrows f) a b c))).
+Proof. exact binary_getitem_slice. Qed.
+
+(* Recfile[cols][a:b:c] (binary and text) and Recfile[a:b:c] on text files are the keyword read with the
+   rows of the Python slice: the bracket, chained and keyword styles agree *)
+Theorem C02_chain_slice_is_row_list : forall P f cols a b c,
+  0 <= rf_nrows f -> step_ok c ->
+  colsubset_getitem P f cols (RSlice a b c)
+  = recfile_read P f (RList (py_slice_rows (rf_nrows f) a b c)) CNone cols false.
+Proof. exact chain_slice_is_row_list. Qed.
+
+Theorem C02_text_getitem_slice_is_row_list : forall P f a b c,
+  rf_ascii f = true -> 0 <= rf_nrows f -> step_ok c ->
+  recfile_getitem_rows P f (RSlice a b c)
+  = recfile_read P f (RList (py_slice_rows (rf_nrows f) a b c)) CNone CNone false.
+Proof. exact text_getitem_slice_is_row_list. Qed.
+
+(* Recfile.read(rows=list, columns=list) on a well-formed binary file: dispatch (including the
+   whole-file shortcut), numpy.unique on rows and columns, and the cursor loop give the table indexed by
+   the distinct rows in ascending order and the named columns in file order *)
+Theorem C02_binary_read_rows_columns : forall P f t tail l cs,
+  wf_bin f t tail -> t <> [] -> NoDup (rf_names f) ->
+  Forall (fun x => 0 <= x < rf_nrows f) l -> Forall (fun c => In c (rf_names f)) cs ->
+  let cols := map snd (filter (fun p => zmem cs (fst p)) (combine (rf_names f) (zseq 0 (length (rf_names f))))) in
+  recfile_read P f (RList l) CNone (CList cs) false
+  = Ok (VTable cols (sel_table t (members_in_order (rf_nrows f) l) cols)).
+Proof. exact binary_read_rows_columns. Qed.
+
+(* ------------------------------------------------------------------ the text cursor loop (partial) *)
+(* skipping an unrequested column moves the stream exactly as reading it *)
+Theorem C02_text_column_projection : forall P d fs keep l rfull l',
+  length keep = length fs ->
+  TextModel.read_row P d fs (repeat true (length fs)) l = Ok (rfull, l') ->
+  TextModel.read_row P d fs keep l = Ok (select keep rfull, l').
+Proof. exact read_row_keep. Qed.
+
+(* PARTIAL (relative to the alignment premise, see TextProofs.v): the skip-and-read loop over sorted
+   duplicate-free in-range row numbers returns exactly those rows of the full read *)
+Theorem C02_cursor_text_partial : forall P d fs keep st rw n rows,
+  aligned P d fs keep st rw n ->
+  StronglySorted Z.lt rows -> Forall (fun r => 0 <= r < Z.of_nat n) rows ->
+  TextModel.read_rows_all P d fs keep n (st O) = Ok (map rw (seq 0 n)) /\
+  TextModel.read_rows_sel P d fs keep rows 0 (st O) = Ok (map (fun r => rw (Z.to_nat r)) rows).
+Proof. exact cursor_text_partial. Qed.
+
+(* non-vacuity of the alignment premise: the two-line file "1,2\n3,4\n", first column kept *)
+Definition ex_fs : list TextModel.fld :=
+  [ {| TextModel.fname := []; TextModel.fkind := TextModel.KInt true 1; TextModel.forder := TextModel.NA; TextModel.fshape := [] |};
+    {| TextModel.fname := []; TextModel.fkind := TextModel.KInt true 1; TextModel.forder := TextModel.NA; TextModel.fshape := [] |} ].
+Definition ex_text : list byte := [x31; x2c; x32; x0a; x33; x2c; x34; x0a].
+Definition ex_st (j : nat) : list byte := skipn (4 * j) ex_text.
+Definition ex_rw (j : nat) : TextModel.row := nth j [[[[x01]]]; [[[x03]]]] [].
+Example ex_aligned : aligned (fun _ x => x) x2c ex_fs [true; false] ex_st ex_rw 2.
+Proof. intros j Hj. destruct j as [|[|j]]; [split; reflexivity|split; reflexivity|lia]. Qed.
+
+Definition ex_table : list (list cell) := [[[x01; x02]; [x0a]]; [[x03; x04]; [x0b]]; [[x05; x06]; [x0c]]].
+Definition ex_file : rfile :=
+  {| rf_ascii := false; rf_delim := x2c; rf_nrows := 3; rf_names := [13; 11]; rf_sizes := [2; 1]; rf_flds := [];
+     rf_data := table_bytes ex_table |}.
+Example ex_wf : wf_bin ex_file ex_table [].
+Proof. split; [reflexivity|reflexivity|repeat constructor|reflexivity|reflexivity]. Qed.
+Example ex_columns : read_binary_columns ex_file [1] (Some [0; 2]) = Ok [[[x0a]]; [[x0c]]].
+Proof. reflexivity. Qed.
+Example ex_slice : read_binary_slice ex_file (0, 3, 2) = Ok [[[x01; x02]; [x0a]]; [[x05; x06]; [x0c]]].
+Proof. reflexivity. Qed.
+Example ex_getitem : recfile_getitem_rows (fun _ x => x) ex_file (RSlice (Some (-2)) None None)
+                     = Ok (VTable [0; 1] [[[x03; x04]; [x0b]]; [[x05; x06]; [x0c]]]).
+Proof. reflexivity. Qed.
+Example ex_read : recfile_read (fun _ x => x) ex_file (RList [2; 0; 2]) CNone (CList [11]) false
+                  = Ok (VTable [1] [[[x0a]]; [[x0c]]]).
+Proof. reflexivity. Qed.
